@@ -16,6 +16,7 @@ import (
 	"sort"
 	"strconv"
 	"strings"
+	"sync"
 	"syscall"
 	"time"
 
@@ -25,6 +26,7 @@ import (
 	"github.com/NethermindEth/juno/consensus/walstore"
 	"github.com/NethermindEth/juno/core/felt"
 	kvdb "github.com/NethermindEth/juno/db"
+	pebblewal "github.com/cockroachdb/pebble/v2/wal"
 	"verifharness/hx"
 )
 
@@ -35,7 +37,7 @@ type Op struct {
 	K    string   `json:"k"`            // a p f ff fc fd c cc o
 	H    uint64   `json:"h,omitempty"`  // height
 	ID   uint64   `json:"id,omitempty"` // payload id (0 = Start entry)
-	W    string   `json:"w,omitempty"`  // ff: n|p
+	W    string   `json:"w,omitempty"`  // ff: n|p (RLIMIT_FSIZE: nothing / a few bytes written), f (hook: record written and synced, sync reported failed), e (hook: write error before anything is written)
 	C    string   `json:"c,omitempty"`  // fc: new torn full tmp ren rottorn rot
 	Cut  int      `json:"cut,omitempty"`
 	Flip int      `json:"flip,omitempty"` // >0: flip this byte (1-based, modulo record length) of the complete record instead of cutting
@@ -50,7 +52,11 @@ func (o Op) String() string {
 	case "p":
 		return fmt.Sprintf("p:%d", o.H)
 	case "ff":
-		return "ff:" + o.W + ":1"
+		w := o.W
+		if w == "e" {
+			w = "n"
+		}
+		return "ff:" + w + ":1"
 	case "fc":
 		return "fc:" + o.C
 	case "fd":
@@ -86,6 +92,55 @@ func (d pathDB) Path() string { return d.p }
 
 func openStore(root string) (Store, error) {
 	return walstore.NewTendermintWALStore[starknet.Value, starknet.Hash, starknet.Address](pathDB{p: root})
+}
+
+// ---------- writer faults through the verif seam walstore.VerifInterposeWriter ----------
+type faults struct {
+	mode string // "" | "sync" | "write": consumed by the next WriteRecord
+	hits int
+}
+
+type faultWriter struct {
+	pebblewal.Writer
+	f *faults
+}
+
+var errInjected = errors.New("injected writer failure")
+
+func (w *faultWriter) WriteRecord(p []byte, opts pebblewal.SyncOptions, rc pebblewal.RefCount) (int64, error) {
+	switch w.f.mode {
+	case "write": // nothing reaches the file
+		w.f.mode = ""
+		w.f.hits++
+		return 0, errInjected
+	case "sync": // the record is really written and synced, then the sync is reported as failed
+		w.f.mode = ""
+		w.f.hits++
+		var done sync.WaitGroup
+		var realErr error
+		done.Add(1)
+		off, err := w.Writer.WriteRecord(p, pebblewal.SyncOptions{Done: &done, Err: &realErr}, rc)
+		if err != nil {
+			return off, err
+		}
+		done.Wait()
+		*opts.Err = errInjected
+		opts.Done.Done()
+		return off, nil
+	}
+	return w.Writer.WriteRecord(p, opts, rc)
+}
+
+func openStoreF(root string) (Store, *faults, error) {
+	st, err := openStore(root)
+	if err != nil {
+		return nil, nil, err
+	}
+	f := &faults{}
+	if !walstore.VerifInterposeWriter(st, func(w pebblewal.Writer) pebblewal.Writer { return &faultWriter{Writer: w, f: f} }) {
+		hx.Fatalf("verif seam: store is not the walstore implementation")
+	}
+	return st, f, nil
 }
 
 func walDir(root string) string { return walstore.DefaultWALDir(root) }
@@ -270,6 +325,7 @@ type world struct {
 	nimg   int
 	root   string // current store root (root/consensus-wal is the log directory)
 	st     Store  // nil when dead / closed
+	flt    *faults
 	ops    []Op
 	rets   []string // real outcome per op: ok | err | crash
 	scen   string
@@ -365,6 +421,11 @@ func classify(a oracleAns, obs string) string {
 		return "height0-dropped" // the only discrepancy concerns entries of height 0
 	}
 	o, la, lb := set(obs), set(a.allowedA), set(a.allowedB)
+	for k, n := range o {
+		if n > lb[k] && lb[k] > 0 {
+			return "duplicate-entry"
+		}
+	}
 	lost, lostZero := 0, 0
 	for k, n := range la {
 		if o[k] < n {
@@ -391,6 +452,18 @@ func classify(a oracleAns, obs string) string {
 	}
 	if extra > 0 && missing > 0 {
 		return "partial-batch"
+	}
+	if lost == 0 {
+		for k, n := range o {
+			if n > lb[k] && lb[k] > 0 {
+				return "duplicate-entry"
+			}
+		}
+		for k, n := range o {
+			if n > lb[k] {
+				return "unacknowledged-entry-durable"
+			}
+		}
 	}
 	for k, n := range o {
 		if n > lb[k] {
@@ -522,6 +595,7 @@ func (w *world) exec(o Op) {
 		}
 	case "ff":
 		ret = w.failedFlush(o)
+		defer w.afterFailedFlush()
 	case "c":
 		if w.st != nil {
 			if err := w.st.Close(); err != nil {
@@ -536,11 +610,11 @@ func (w *world) exec(o Op) {
 			w.root = img
 			w.st = nil
 		}
-		st, err := openStore(w.root)
+		st, flt, err := openStoreF(w.root)
 		if err != nil {
 			ret = "err"
 		} else {
-			w.st = st
+			w.st, w.flt = st, flt
 		}
 	default:
 		hx.Fatalf("exec: op %s", o.K)
@@ -552,6 +626,18 @@ func (w *world) exec(o Op) {
 	w.ops = append(w.ops, o)
 	w.rets = append(w.rets, ret)
 	w.c.Hist["op:"+o.K]++
+}
+
+// afterFailedFlush: the same instance and a crash image taken right after the failed call must show
+// nothing of the failed batch (C14_flush_fail_clean: sdur, sack and the reopen result unchanged).
+func (w *world) afterFailedFlush() {
+	if w.st == nil {
+		return
+	}
+	w.sync("after-failed-flush")
+	img := w.newImgRoot()
+	copyDir(walDir(w.root), walDir(img))
+	w.checkImage(append([]Op{}, w.ops...), img, "after-failed-flush", w.rng.Chance(50), nil)
 }
 
 // failedFlush makes the record write fail through RLIMIT_FSIZE: the kernel cuts the write at the limit
@@ -568,6 +654,19 @@ func (w *world) failedFlush(o Op) string {
 			return "err"
 		}
 		return "ok"
+	}
+	if o.W == "f" || o.W == "e" {
+		w.flt.mode = map[string]string{"f": "sync", "e": "write"}[o.W]
+		err := w.st.Flush()
+		w.c.Hist["failed-flush-injected:"+w.flt.mode+o.W]++
+		if w.flt.mode != "" || err == nil {
+			w.flt.mode = ""
+			w.c.Violation("fault-injection-ineffective", fmt.Sprintf("Flush under an injected writer failure (%s) returned %v", o.W, err), w.ops, true)
+			if err == nil {
+				return "ok"
+			}
+		}
+		return "err"
 	}
 	var size int64
 	if cur != "none" {
@@ -1069,7 +1168,7 @@ func (w *world) driverLike(heights int, pruneLag int) {
 			w.exec(Op{K: "o"}) // killed while idle
 		case r < 12:
 			w.exec(Op{K: "a", H: h, ID: w.id()})
-			w.exec(Op{K: "ff", W: []string{"n", "p"}[w.rng.Intn(2)], Cut: w.rng.Intn(30)})
+			w.exec(Op{K: "ff", W: []string{"n", "p", "f", "e", "f"}[w.rng.Intn(5)], Cut: w.rng.Intn(30)})
 			if w.rng.Bool() {
 				w.flushMaybeImaged(100, false)
 			}
@@ -1121,7 +1220,7 @@ func (w *world) adversarial(n int, withZero bool) {
 		case r < 84:
 			w.exec(Op{K: "o"})
 		case r < 88:
-			w.exec(Op{K: "ff", W: []string{"n", "p"}[w.rng.Intn(2)], Cut: w.rng.Intn(30)})
+			w.exec(Op{K: "ff", W: []string{"n", "p", "f", "e", "f"}[w.rng.Intn(5)], Cut: w.rng.Intn(30)})
 		case r < 94:
 			if w.crashHere(Op{K: "fc", C: []string{"torn", "full", "new", "torn"}[w.rng.Intn(4)], Cut: w.rng.Intn(1000), Flip: w.rng.Intn(2) * w.rng.Intn(400)}) {
 				w.exec(Op{K: "o"})
@@ -1190,6 +1289,71 @@ func (w *world) cleanupFocused() {
 	w.finish()
 }
 
+// spreadHeights: heights whose entries are spread over several log files (a restart or a cleanup
+// rotation between two flushes of the same height), other heights that live only in the later file,
+// then more than cleanupInterval prune flushes that prune the spread heights but not the others:
+// the per-file reference counts decide which files the cleanup removes.
+func (w *world) spreadHeights() {
+	w.reset("spread")
+	nSpread := 1 + w.rng.Intn(3)
+	base := uint64(20 + w.rng.Intn(60))
+	var spread, late []uint64
+	for i := 0; i < nSpread; i++ {
+		spread = append(spread, base+uint64(i*(1+w.rng.Intn(40))))
+	}
+	lives := 2 + w.rng.Intn(3)
+	for l := 0; l < lives; l++ {
+		for _, h := range spread {
+			if l == 0 || w.rng.Chance(70) {
+				w.exec(Op{K: "a", H: h, ID: w.id()})
+			}
+		}
+		if l > 0 {
+			for k := 0; k < 1+w.rng.Intn(2); k++ {
+				g := uint64(1000 + w.rng.Intn(2000)) // survives the prune run
+				if w.rng.Chance(30) {
+					g = base + 100 + uint64(w.rng.Intn(150)) // pruned during the run
+				}
+				late = append(late, g)
+				w.exec(Op{K: "a", H: g, ID: w.id()})
+			}
+		}
+		w.exec(Op{K: "f"})
+		if w.rng.Chance(25) {
+			w.exec(Op{K: "a", H: spread[0], ID: w.id()})
+			w.exec(Op{K: "ff", W: []string{"f", "e", "p"}[w.rng.Intn(3)], Cut: w.rng.Intn(30)}) // the retry lands in a new file
+			w.exec(Op{K: "f"})
+		}
+		if l < lives-1 || w.rng.Bool() {
+			if w.rng.Bool() {
+				w.exec(Op{K: "c"})
+			}
+			w.exec(Op{K: "o"})
+		}
+	}
+	h := uint64(1)
+	total := cleanupInterval + 4 + w.rng.Intn(2)*(cleanupInterval)
+	for i := 0; i < total; i++ {
+		if w.rng.Chance(10) {
+			w.exec(Op{K: "a", H: late[w.rng.Intn(len(late))], ID: w.id()})
+		}
+		if w.rng.Chance(5) {
+			w.exec(Op{K: "a", H: h + 400, ID: w.id()})
+		}
+		w.exec(Op{K: "p", H: h})
+		h++
+		a := w.ask(w.ops, "?")
+		since, _ := strconv.Atoi(field(a.disk, "since"))
+		if since >= cleanupInterval-1 && field(a.disk, "pend") != "0" {
+			w.flushWithImages(false)
+			w.sync("after-cleanup")
+		} else {
+			w.exec(Op{K: "f"})
+		}
+	}
+	w.finish()
+}
+
 // ---------- replay ----------
 func (w *world) replay() {
 	var r replayImage
@@ -1241,8 +1405,36 @@ func main() {
 	if c.Thorough() {
 		nAdv, nDrv, nCl = 160, 6, 10
 	}
+	// directed: a flush whose sync fails after the data reached the file, retry, restart (no duplicates,
+	// nothing of the failed batch durable in between)
+	w.reset("failed-sync")
+	w.exec(Op{K: "a", H: 1, ID: 11})
+	w.exec(Op{K: "f"})
+	w.exec(Op{K: "a", H: 2, ID: 12})
+	w.exec(Op{K: "p", H: 1})
+	w.exec(Op{K: "ff", W: "f"})
+	w.exec(Op{K: "f"})
+	w.exec(Op{K: "a", H: 3, ID: 13})
+	w.exec(Op{K: "ff", W: "e"})
+	w.exec(Op{K: "f"})
+	w.finish()
+	// directed: height 50 spread over files 1 and 2, height 1000 only in file 2, prune past 50, cleanup
+	w.reset("spread-min")
+	w.exec(Op{K: "a", H: 50, ID: 21})
+	w.exec(Op{K: "f"})
+	w.exec(Op{K: "o"})
+	w.exec(Op{K: "a", H: 50, ID: 22})
+	w.exec(Op{K: "a", H: 1000, ID: 23})
+	w.exec(Op{K: "f"})
+	for h := uint64(45); h < 45+cleanupInterval+2; h++ {
+		w.exec(Op{K: "p", H: h})
+		w.exec(Op{K: "f"})
+	}
+	w.sync("after-cleanup")
+	w.finish()
 	for i := 0; i < nCl; i++ {
 		w.cleanupFocused()
+		w.spreadHeights()
 	}
 	for i := 0; i < nDrv; i++ {
 		w.driverLike(cleanupInterval+80+w.rng.Intn(300), []int{0, 0, 1, 3}[w.rng.Intn(4)])
@@ -1261,7 +1453,7 @@ func main() {
 	}
 	c.Extra["scenario_wall_s"] = time.Since(start).Seconds()
 	c.Extra["time_split_s"] = map[string]float64{"oracle": tOracle.Seconds(), "image_snapshot": tDump.Seconds(), "real_open_load": tOpen.Seconds(), "image_build": tBuild.Seconds()}
-	c.Extra["limitations"] = "writer failures are injected only through RLIMIT_FSIZE (write cut at the limit, EFBIG); sync errors, failing truncate (repairRequired) and failing watermark/remove calls are not reachable without a vfs hook"
+	c.Extra["limitations"] = "writer failures: write cut by RLIMIT_FSIZE (EFBIG), and through the verif seam walstore.VerifInterposeWriter a write error before anything is written and a sync reported failed after the record reached the file; a failing truncate (repairRequired) and failing watermark/rename/remove calls are model-only"
 	os.RemoveAll(base)
 	var _ = errors.New
 	c.Finish(rule)
